@@ -18,7 +18,8 @@ CHECKS = {
              'kernel equals FP_SDR on unit vectors whose normal points upwards; the polarity kernel '
              'equals the Python per-station polarity likelihood; the polarity-probability kernel equals it for X != 0 or p+ + p- = 1 '
              '(and provably differs otherwise: known finding); the amplitude-ratio kernel on signed amplitudes equals the Python kernel '
-             'for every odd erf with Phi = (1+erf(./sqrt2))/2; the scale-combination kernels equal the combine_mu step. For every real '
+             'for every odd erf with Phi = (1+erf(./sqrt2))/2; the scale-combination kernels equal the combine_mu step; the per-station '
+             'scale-factor kernel estimate_scale_mu_s equals the mean/deviation formulas of scale_estimator for all inputs. For every real '
              'input, where the (skipped) *_cython tests compare a few fixed inputs.',
         note=AX_R + 'NOT covered: the compiled binaries, C arithmetic and memory views, the station/sample loops and dispatch wrappers, '
              'random number generation, log-domain reductions, and the extension '
@@ -62,7 +63,9 @@ CHECKS = {
         note=AX_R + 'the auxiliary-plane routine SDR_SDR (strike-difference heuristic), its involution, the batched forms and the two planes '
              'reported by output_convert are NOT theorems (the inlined definition is too large for the kernel to relate to its parts '
              'in reasonable time): they are judged on the implementation against an independent construction of the two nodal '
-             'planes, including rake = +-pi, vertical and near-horizontal planes and planes with strikes closer than one radian.',
+             'planes, including rake = +-pi, vertical and near-horizontal planes and planes with strikes closer than one radian; sequences of '
+             'conversions on one normal/slip pair (normal_SD, FP_SDSD, then FP_SDR / FP_TNP on the same matrix or array objects) must still '
+             'describe the same source.',
         design='6 C13'),
     'C14': dict(
         technique='Coq proof over R (lra/nra/field, atan2/acos lemmas of Lib/Trig.v) about E_GD, GD_E, E_tk, tk_uv, basic_cdc_GD, GD_basic_cdc, MT6c_D6 and the system it hands to the solver, all translated from moment_tensor_conversion.py on every run (symbolic numpy arrays)',
@@ -87,7 +90,8 @@ CHECKS = {
              'Coq, with the implementation on integer-coded dictionaries. A proof settles every angle and tensor, which the '
              'unit tests (a few literal values) cannot.',
         note=AX_R + 'translator py2coq and its validation run; numpy indexing/broadcasting of the builders is modelled by hand '
-             '(Model/Matrices.v) and tied by correspondence only; location records are assumed to share one station order.',
+             '(Model/Matrices.v) and tied by correspondence only; location records are assumed to share one station order; ratio phases '
+             '(numerator, denominator pair, degrees and radians) are judged on the implementation against g.M.g / phi.M.g / theta.M.g.',
         design='6 C11'),
     'C02': dict(
         technique='Coq proof over R (lra/nra) about kernels translated from the argument of np.log in polarity_ln_pdf and polarity_probability_ln_pdf on every run, erf as a section variable with stated hypotheses',
@@ -141,7 +145,8 @@ CHECKS = {
         note='generic theorems are closed under the global context; the R instance uses the three real-number axioms; numpy broadcasting, '
              'try/except flow and LnPDF plumbing are modelled by hand and tied by correspondence; exp/log comparisons use 1e-8 (wider for '
              'fractional errors below 1e-2, loose in the float underflow regime), zero/non-zero status exact; kernels themselves are '
-             'C02/C03; builders are C11.',
+             'C02/C03; builders are C11; whole front-end cases (event dictionary with several data types and location records -> '
+             'Inversion._station_angles -> ForwardTask) are judged by a direct oracle that matches observations to location records by name.',
         design='6 C01'),
     'C05': dict(
         technique='Coq proof over R (field/lra, Coquelicot FTC, Interval) about acceptance rules, proposal density and priors translated on every run from markov_chain_monte_carlo.py, generic in the proposal density and prior',
@@ -154,7 +159,10 @@ CHECKS = {
              'refuted for the code (known finding, certified numerically by Interval).',
         note=AX_R + 'Classical_Prop.classic (Coquelicot integrals); primitive-float operations used by the Interval tactic; Phi is a parameter whose '
              'derivative is the normal density; scipy.stats mapped to phi/Phi by the translator; multi-event loop and dict plumbing are '
-             'covered by the oracle (balance identity evaluated on the implementation with an independent truncated-Gaussian q).',
+             'covered by the oracle (balance identity evaluated on the implementation with an independent truncated-Gaussian q), which '
+             'also runs the kernel as a chain composes it: a model jump proposed by _new_sample_single and taken through _add_new, then a '
+             'within-model proposal from the state it left, acceptance probabilities read inside _acceptance_check as iterate() calls it '
+             '(configured dc_prior).',
         design='6 C05'),
     'C03': dict(
         technique='Coq proof over R with Coquelicot (field/nra, derivative of an explicit antiderivative, FTC on finite windows, limit of the tail) about ratio_pdf and the amplitude-ratio likelihood translated from source on every run',
@@ -167,7 +175,8 @@ CHECKS = {
         note=AX_R + 'Classical_Prop.classic (Coquelicot); Phi is a parameter: derivative = normal density, Phi(-t) = 1 - Phi(t), limits 0/1, monotone; '
              'normalisation over r (integral = 1) is NOT proved, it is validated numerically (scipy quadrature of the implementation, < 1e-6) '
              'on every run; NaN-freedom/finiteness down to fractional error 1e-5 judged on the implementation; comparison with 22-digit '
-             'quadrature of the defining integral with a conditioning-aware tolerance.',
+             'quadrature of the defining integral with a conditioning-aware tolerance; batched calls (1-6 stations x 1-6 location samples x '
+             '1-12 tensors, including 6 x 6 tensor blocks) are compared cell by cell with the one-station one-tensor value.',
         design='6 C03'),
     'C06': dict(
         technique='Coq proof: redraw-loop lemmas over arbitrary draw streams applied to draw expressions/guards translated from _new_sample_single on every run; invariant by induction over all window-rate histories on a generic arithmetic model instantiated at R (proof) and at binary64 PrimFloat (bit-exact vm_compute correspondence)',
@@ -179,7 +188,8 @@ CHECKS = {
         note=AX_R + 'the law of numpy.random (i.i.d. standard normals) is assumed: "follows the truncated Gaussian" = first-acceptable-draw theorem + C05; '
              'Model/Adapt.v is hand-written, tied bit-exactly (primitive floats in the Coq kernel) on exhaustive short and random long '
              'histories; unit norm / double-couple eigenvalues of proposals and jump behaviour through whole iterations are judged on the '
-             'implementation (proved for the conversion itself in C12).',
+             'implementation (proved for the conversion itself in C12); a direct oracle on scripted draw streams (every proposed coordinate '
+             '= current value + its own width x one of the draws made) supplies the failing input when the translation breaks.',
         design='6 C06'),
     'C07': dict(
         technique='Coq proof by induction over arbitrary proposal/decision histories about an executable Gallina model of the chain bookkeeping (three-phase invariant), tied by vm_compute correspondence on whole iterations of the real algorithm objects; stationarity from detailed balance as a theorem',
@@ -190,7 +200,10 @@ CHECKS = {
              'likelihood, the double-couple counter equals the number of double-couple entries, a constrained chain holds only double-couples, '
              'the run ends exactly when tried reaches the chain length; detailed balance implies stationarity on any finite state space.',
         note='accept/reject decisions are model inputs (their probabilities are C05); "samples the posterior" = C05 + stationarity theorem + assumed '
-             'ergodicity and generator law (statistical comparison not run in the quick tier); model hand-written, tied on bounded-exhaustive '
+             'ergodicity and generator law; validated on every run by whole chains (trans-dimensional, constrained; thorough: full tensor, '
+             'peaked posterior, dc_prior 0.3, uniform balancing draw) on a smooth synthetic likelihood against likelihood-weighted prior '
+             'sampling (fixed numpy seeds, alarm at 5 batch-means standard errors + 0.01); the model odds a trans-dimensional chain targets are '
+             'computed by quadrature of the code\'s own densities (known finding: scaled by 1.0826 / 0.703); model hand-written, tied on bounded-exhaustive '
              'decision strings and random histories through the four chain classes with random and grid initialisation and zero-likelihood '
              'proposals; multiple-try batches are not generated on the pure-Python path.',
         design='6 C07'),
